@@ -9,7 +9,7 @@ EXTENDS BlobStore, TLC
 CONSTANTS MaxId, NKeys
 
 Ids == 0..MaxId
-Recs == { [len |-> 0, h |-> <<1, 1>>], [len |-> 1, h |-> <<2, 2>>], [len |-> 1, h |-> <<3, 3>>] }
+Recs == { [len |-> 0, h |-> <<1, 1>>], [len |-> 1, h |-> <<2, 2>>] }
 Keys == { [i \in 1..n |-> 7] : n \in 0..(NKeys - 1) }     \* <<>>, <<7>>, <<7,7>> ... (prefix chain)
 
 (* ghost: the record most recently stored under each id (what "put associated with that id") *)
